@@ -4,8 +4,8 @@ func init() {
 	register(propSpec{
 		ID: "C02", Pkg: "props/c02", NeedCLI: true, QuickParallel: 3,
 		Rule: "cases: alignments of 1-6 rows built through the public constructors (alphabet detected after insertion); length from a boundary-biased distribution (1-12; every writer width 10/50/60/80 times k, plus and minus 1; 99-101 ... 239-241 (up to 1000 in thorough); uniform), half of the boundary draws using a width of the configuration at hand; residues nucleotide or protein IUPAC letters in both cases plus '-', '*', '?' (no '.'), a share of cases (nominally 1 in 25, more under rapid's bias to small values) with a whole row spelling a lexer keyword; names of 1-16 printable non-blank characters drawn from plain names, random printable ASCII, 9-12 character names, a few non-ASCII letters and a hostile-but-legal dictionary (pure numerics, x_0001, Nexus/Clustal/Stockholm keywords in three cases, 10/11 character names, other formats' delimiters) and, for one name in thirteen, a variant of an earlier name of the same alignment (case changed, last character changed), minus the delimiters of the formats of the case (FASTA '>'; Nexus '[ ] ; ='; Stockholm leading '#' and the name '//'; strict Phylip: at most 10 bytes), pairwise distinct. " +
-			"Configurations: FASTA; Phylip x {strict} x {one-line} x {no-block}; Nexus; Clustal; Stockholm (12), each also enumerated for every length 1..250 (1..1000 thorough) x {nt, aa}; files written through utils.OpenWriteFile with no extension/.gz/.xz - the text cut at 0-4 drawn positions, the pieces given in turn to WriteString or Write - and read through utils.ReadAlign or GetReader+parser; in the file and command-line runs a base alignment may be repeated (rows = rotated copies of the base rows, the case stores base and factor) so that 1 text in 10 exceeds each of 4, 8, 32 and 64 KiB (up to ~130 000 columns), i.e. the 4096-byte buffered writers/readers and the compressors' blocks are crossed; lists of 2-6 Phylip alignments of mixed sizes (tiny ... > 64 KiB of text, either order) written to one plain/.gz/.xz file, one write per alignment cut further by the drawn positions, and read through GetReader + ParseMultiAlignmentsAuto with the file passed as closer (the call pattern of the command line under --auto-detect) or GetReader + ParseMultiple; files compressed by the harness read through GetReader; ParseAlignmentAuto and ParseMultiAlignmentsAuto on FASTA/Nexus/Clustal/Phylip text; streams of 1-4 Phylip alignments (options drawn per alignment) through ParseMultiple and repeated Parse; chains of 2-5 conversions; goalign reformat fasta/phylip/nexus/clustal from -p/-x/-u/-k/--auto-detect/no flag, --input-strict/--output-strict/--one-line/--no-block, stdin or plain/.gz/.xz input, stdout or -o plain/.gz/.xz, Phylip streams of 1-5 alignments of mixed sizes (input files up to several 100 KiB) for reformat phylip/fasta under -p and --auto-detect. " +
-			"Oracle (inverse): parse(write(a)) has the same names in the same order, the same residues, the same length and the same detected alphabet as a, and is written to the same text; the file on disk, decompressed with Go's gzip / the xz package, is byte-identical to the text; ParseMultiple (in memory and on files) and ParseMultiAlignmentsAuto on files return exactly the list, no error, then the end of the stream; auto-detection returns the code of the format written; every step of a chain and its end equal the first alignment; command line: exit status 0, output (FASTA also read by an independent reader) equal to the input alignment(s) - first alignment only for reformat fasta, all for reformat phylip. " +
+			"Configurations: FASTA; Phylip x {strict} x {one-line} x {no-block}; Nexus; Clustal; Stockholm (12), each also enumerated for every length 1..250 (1..1000 thorough) x {nt, aa}; files written through utils.OpenWriteFile with no extension/.gz/.xz - the text cut at 0-4 drawn positions, the pieces given in turn to WriteString or Write; in one case in four the path already exists and holds a longer content (written before through OpenWriteFile, or a plain file put there by the harness) - and read through utils.ReadAlign or GetReader+parser; in the file and command-line runs a base alignment may be repeated (rows = rotated copies of the base rows, the case stores base and factor) so that 1 text in 10 exceeds each of 4, 8, 32 and 64 KiB (up to ~130 000 columns), i.e. the 4096-byte buffered writers/readers and the compressors' blocks are crossed; lists of 2-6 Phylip alignments of mixed sizes (tiny ... > 64 KiB of text, either order) written to one plain/.gz/.xz file, one write per alignment cut further by the drawn positions, and read through GetReader + ParseMultiAlignmentsAuto with the file passed as closer (the call pattern of the command line under --auto-detect) or GetReader + ParseMultiple; files compressed by the harness read through GetReader; ParseAlignmentAuto and ParseMultiAlignmentsAuto on FASTA/Nexus/Clustal/Phylip text; streams of 1-4 Phylip alignments (options drawn per alignment) through ParseMultiple and repeated Parse; chains of 2-5 conversions; goalign reformat fasta/phylip/nexus/clustal from -p/-x/-u/-k/--auto-detect/no flag, --input-strict/--output-strict/--one-line/--no-block, stdin or plain/.gz/.xz input, stdout or -o plain/.gz/.xz (one -o path in three exists before and is longer than the output), Phylip streams of 1-5 alignments of mixed sizes (input files up to several 100 KiB) for reformat phylip/fasta under -p and --auto-detect. " +
+			"Oracle (inverse): parse(write(a)) has the same names in the same order, the same residues, the same length and the same detected alphabet as a, and is written to the same text; the file on disk, decompressed with Go's gzip / the xz package, is byte-identical to the text, and a file written over an existing longer one is byte-identical on disk to the same writes to a fresh path (nothing follows the stream); ParseMultiple (in memory and on files) and ParseMultiAlignmentsAuto on files return exactly the list, no error, then the end of the stream; auto-detection returns the code of the format written; every step of a chain and its end equal the first alignment; command line: exit status 0, output (FASTA also read by an independent reader) equal to the input alignment(s) - first alignment only for reformat fasta, all for reformat phylip. " +
 			"Non-trivial: the alignment needs more than one output line or block in that format, or its length is a multiple of a line/block width, or a name is in the hostile dictionary or a row spells a keyword (streams in memory: and at least two alignments; chains: and at least two formats; streams in files: the text exceeds the 4096 bytes buffered when the opening call returns); distinct = distinct JSON form of the case",
 		Assumptions: []string{
 			"'representable' is read from each format's lexical rules: names are non-empty, without blanks or control characters, without '>' (FASTA), '[ ] ; =' (Nexus), a leading '#' or the name '//' (Stockholm), at most 10 bytes for strict Phylip; residues exclude '.', the match/gap character of Nexus and Stockholm; O, J and mixtures of U with protein-only letters are outside (no detected alphabet)",
